@@ -173,8 +173,29 @@ def build_rust(extra_rustflags=""):
     with Lock("rust"):
         t0 = time.time()
         env = {"RUSTFLAGS": ("--cfg vpncloud_verif -Awarnings " + extra_rustflags).strip(), "CARGO_NET_OFFLINE": "true"}
+        # cargo decides staleness by modification time; a file changed and changed back within the clock's
+        # granularity (apply a patch, build, revert) can look fresh.  The content hash of everything that is
+        # compiled decides instead: if it differs from the one recorded at the last build, force a rebuild.
+        h = hashlib.sha256()
+        roots = [os.path.join(REPO, "src"), os.path.join(VERIF, "harness")]
+        files = [os.path.join(REPO, f) for f in ("Cargo.toml", "Cargo.lock", "build.rs")]
+        for r in roots:
+            for d, _, fs in sorted(os.walk(r)):
+                files += [os.path.join(d, f) for f in sorted(fs)]
+        for f in files:
+            if os.path.isfile(f):
+                h.update(f.encode() + b"\0" + open(f, "rb").read() + b"\0")
+        digest = h.hexdigest() + " " + env["RUSTFLAGS"]
+        stamp = os.path.join(CACHE, "rust_sources.sha256")
+        if not (os.path.exists(stamp) and open(stamp).read() == digest):
+            os.utime(os.path.join(REPO, "src", "main.rs"))
         rc, out = sh("timeout 1500 cargo build --offline --manifest-path %s/Cargo.toml --target-dir %s" % (REPO, TARGET),
                      timeout=1600, env=env)
+        if rc == 0:
+            os.makedirs(CACHE, exist_ok=True)
+            open(stamp, "w").write(digest)
+        elif os.path.exists(stamp):
+            os.remove(stamp)
         log("[rust] cargo build rc=%d in %.1fs" % (rc, time.time() - t0))
         return rc == 0, out
 
